@@ -3,7 +3,7 @@ import itertools, json, os
 import vlib
 from vlib import hexs
 
-REQUIRED = ['reader_refines_goodLines', 'reader_refines_goodLines_from', 'reader_chunk_independent_full', 'findEol_valid_spec', 'findEol_valid_append', 'reader_chunk_independent_partial', 'wellformed_lines_independent_of_cuts', 'next_line_independent_of_state', 'discard_chunk_independent', 'malformed_never_queued', 'legal_payload_queued_exactly', 'terminator_only_at_crlf_dot_crlf_counterexample']
+REQUIRED = ['data_phase_refines_frame', 'data_framing_chunk_independent', 'queued_only_at_crlf_dot_crlf', 'reader_refines_goodLines', 'reader_refines_goodLines_from', 'reader_chunk_independent_full', 'findEol_valid_spec', 'findEol_valid_append', 'reader_chunk_independent_partial', 'wellformed_lines_independent_of_cuts', 'next_line_independent_of_state', 'discard_chunk_independent', 'malformed_never_queued', 'legal_payload_queued_exactly', 'terminator_only_at_crlf_dot_crlf_counterexample']
 A, D, CR, LF = 0x61, 0x2e, 13, 10
 
 
@@ -177,6 +177,8 @@ def data_framing(ctx):
         sc = W.base_scenario(); sc.items = items
         scs.append(sc); metas.append(m)
     smouts = vlib.run_batch(ctx.driver, lines)
+    # the specification on the bytes alone (no cuts, no buffers): verdict and message lines
+    fouts = dict(zip(sorted({st for st, _ in cases}), vlib.run_batch(ctx.driver, ['frame %s' % hexs(st) for st in sorted({st for st, _ in cases})])))
     rs = session.run_sessions(ctx, b, scs)
     dis, fails = [], []
     by_stream = {}
@@ -197,6 +199,15 @@ def data_framing(ctx):
                 dis.append((case, 'queued text %r' % queued[0][-60:], 'model lines %r' % want[-60:]))
         if r.fault:
             fails.append((case, obs, 'fails memory-safety-or-crash: ' + r.fault[:150]))
+        fo = fouts.get(st, '').split()
+        if fo and fo[0] in ('queued', 'refused', 'died'):
+            fmsg = [vlib.unhex(x) for x in fo[1][4:].split(',')] if fo[1] != 'msg=-' else []
+            if (fo[0] == 'queued') != (len(queued) == 1):
+                fails.append((case, obs, 'fails data-frame-spec: the specification on the bytes says %s' % fo[0]))
+            elif queued:
+                want = b''.join((l[1:] if l.startswith(b'.') else l) + b'\n' for l in fmsg)
+                if not queued[0].endswith(want):
+                    fails.append((case, 'queued text %r' % queued[0][-60:], 'fails data-frame-spec: message lines differ from the specification %r' % want[-60:]))
         malformed = m['errs'] > 0
         if malformed and queued:
             fails.append((case, obs, 'fails malformed-payload-queued'))
